@@ -357,3 +357,31 @@ Print Assumptions C02_frag_cover.
 Print Assumptions C02_fragid_singleton.
 Print Assumptions C02_frag_copy_attrs.
 Print Assumptions C02_correspondence_injective.
+
+(** ---- source tie: the model of merge_graphs IS the function regenerated from /repo's text on this run
+    (theories/Gen/GraphUtilsGen.v by tools/gen_graphutils.py, translated at max_node=None; primitives in
+    Resolve/SourcePrims.v).  Hypotheses: the template graph is a dict of nodes with dicts of neighbours that are nodes
+    (SourceTie.adj_ok), and its 'ez_isomer_atoms' values are such that the model raises what the source raises
+    (SourceTie.ez_modelled: not a one-element list of a non-number, not an empty str, not a dict). *)
+From CGV Require Resolve.SourcePrims Gen.GraphUtilsGen Resolve.SourceTie.
+Theorem C02_merge_model_is_source : forall src tgt, SourceTie.adj_ok tgt -> SourceTie.ez_values_modelled tgt ->
+  GraphUtilsGen.gen_merge_graphs src tgt = GraphOps.merge_graphs src tgt.
+Proof. exact SourceTie.merge_is_source. Qed.
+Example C02_merge_model_is_source_nonvacuous :
+  let tgt := add_edge (add_node (add_node gempty 0 [(S "element", VStr (S "C")); (S "ez_isomer_atoms", VTup [VInt 0; VInt 1])])
+                                1 [(S "element", VStr (S "O"))]) 0 1 [(S "order", VInt 2)] in
+  let src := add_node gempty 0 [(S "fragid", VList [VInt 0])] in
+  SourceTie.adj_ok tgt /\ SourceTie.ez_values_modelled tgt /\
+  match GraphOps.merge_graphs src tgt with
+  | Ok (g, corr) => corr = [(0, 1); (1, 2)] /\ node_keys g = [0; 1; 2] /\ edges_list g = [(1, 2)]
+                    /\ node_get g 1 (S "ez_isomer_atoms") = Some (VTup [VInt 1; VInt 2])
+  | Err _ => False
+  end.
+Proof.
+  cbv zeta. split; [|split; [|vm_compute; repeat split; reflexivity]].
+  - split; [repeat constructor; cbn; intuition discriminate|]. split.
+    + intros n [<-|[<-|[]]]; cbn; repeat constructor; cbn; intuition discriminate.
+    + intros n w [<-|[<-|[]]]; cbn; intuition.
+  - repeat constructor; cbn; exact I.
+Qed.
+Print Assumptions C02_merge_model_is_source.
